@@ -39,14 +39,180 @@ def statements(code):
         out.append((start, cur))
     return out
 
+# ---------------------------------------------------------------------------------------------------
+# (2) every `Lint { .. }` a rule file constructs: where does its `span` field come from?
+# ---------------------------------------------------------------------------------------------------
+IDX = r"(?:\[[^\[\]]*\])?"
+TOKEXPR = r"\w+" + IDX + r"(?:\.(?:first|last)\(\)\??)?(?:\.\d+)?(?:\.unwrap\(\))?"
+SRC_CLASSES = [
+    ("LBetween", re.compile(r"Span::new\(" + TOK + r"\.span\.start," + TOK + r"\.span\.end\)")),
+    ("LSuffixSpan", re.compile(r"Span::new_with_len\(\w+\.span\.end,2\)\.pulled_by\(2\)(?:\.unwrap\(\))?")),
+    ("LWithLen1", re.compile(r"\w+\.span\.with_len\(1\)")),
+    ("LHull", re.compile(r"\w+" + IDX + r"\.span\(\)(?:\?|\.unwrap\(\))")),
+    ("LTokSpan", re.compile(TOKEXPR + r"\.span")),
+]
+
+def match_brace(code, i):
+    """code[i] == '{' -> index of the matching '}'"""
+    depth = 0
+    for j in range(i, len(code)):
+        if code[j] == "{":
+            depth += 1
+        elif code[j] == "}":
+            depth -= 1
+            if depth == 0:
+                return j
+    raise RuntimeError("unbalanced braces")
+
+def top_fields(body):
+    out, cur, depth = [], "", 0
+    for ch in body:
+        if ch in "([{":
+            depth += 1
+        elif ch in ")]}":
+            depth -= 1
+        if ch == "," and depth == 0:
+            out.append(cur)
+            cur = ""
+        else:
+            cur += ch
+    if cur.strip():
+        out.append(cur)
+    return [re.sub(r"\s+", "", f) for f in out]
+
+def let_defs(code, name):
+    """right-hand sides of `let [mut] name = E;` and `let Some(name) = E else`"""
+    out = []
+    for m in re.finditer(r"\blet\s+(?:mut\s+)?" + re.escape(name) + r"\s*(?::[^=;]+)?=(?!=)", code):
+        j, depth = m.end(), 0
+        while j < len(code):
+            c = code[j]
+            if c in "([{":
+                depth += 1
+            elif c in ")]}":
+                depth -= 1
+            elif c == ";" and depth == 0:
+                break
+            j += 1
+        out.append(re.sub(r"\s+", "", code[m.end():j]))
+    # `let (a, name, c) = match X { pat => (Ea, Ename, Ec), pat => continue, .. };` — the component of every arm
+    for m in re.finditer(r"\blet\s*\(([^()]*)\)\s*=\s*match\b[^{;]*\{", code):
+        names = [x.strip() for x in m.group(1).split(",")]
+        if name not in names:
+            continue
+        k = names.index(name)
+        end = match_brace(code, m.end() - 1)
+        body = code[m.end():end]
+        j, depth = 0, 0
+        while j < len(body) - 1:
+            c = body[j]
+            if c in "([{":
+                depth += 1
+            elif c in ")]}":
+                depth -= 1
+            elif depth == 0 and body[j:j + 2] == "=>":
+                t = j + 2
+                while body[t].isspace():
+                    t += 1
+                if body[t] == "(":
+                    d2, u = 0, t
+                    while True:
+                        if body[u] in "([{":
+                            d2 += 1
+                        elif body[u] in ")]}":
+                            d2 -= 1
+                            if d2 == 0:
+                                break
+                        u += 1
+                    comps = top_fields(body[t + 1:u])
+                    out.append(comps[k] if k < len(comps) else "?")
+                    j = u + 1
+                    continue
+                elif not re.match(r"(continue|break|return)\b", body[t:]):
+                    out.append("?arm:" + re.sub(r"\s+", "", body[t:t + 40]))
+            j += 1
+    for m in re.finditer(r"\blet\s+Some\(\s*" + re.escape(name) + r"\s*\)\s*=(?!=)(.*?)\belse\b", code, re.S):
+        out.append(re.sub(r"\s+", "", m.group(1)))
+    return out
+
+def classify_src(code, expr, depth=0):
+    for name, rx in SRC_CLASSES:
+        if rx.fullmatch(expr):
+            return [(name, expr)]
+    if re.fullmatch(r"\w+", expr) and depth < 3:
+        defs = let_defs(code, expr)
+        if defs:
+            cls = [classify_src(code, d, depth + 1) for d in defs]
+            return [(c, expr + ":=" + e) for sub in cls for c, e in sub]
+    return [("LUnknown", expr)]
+
+def lint_sites(code):
+    out = []
+    for m in re.finditer(r"\bLint\s*\{", code):
+        # not `impl .. for Lint {` / `struct Lint {`
+        before = code[max(0, m.start() - 40):m.start()]
+        if re.search(r"\b(impl|struct|for)\s+$", before) or re.search(r"\bfor\s+$", before):
+            continue
+        j = match_brace(code, m.end() - 1)
+        fields = top_fields(code[m.end():j])
+        sp = None
+        for f in fields:
+            if f == "span":
+                sp = "span"
+            elif f.startswith("span:"):
+                sp = f[5:]
+        if sp is None:
+            out.append(("LUnknown", "Lint{..}withoutaspanfield"))
+        else:
+            out.extend(sorted(set(classify_src(code, sp))))
+    return out
+
+# ---------------------------------------------------------------------------------------------------
+# (3) Suggestion: the enum's variants, the helper constructors, every constructor a rule file uses
+# ---------------------------------------------------------------------------------------------------
+def suggestion_table(d):
+    src = strip_comments(strip_tests(open(os.path.join(d, "suggestion.rs"), encoding="utf-8").read()))
+    m = re.search(r"pub\s+enum\s+Suggestion\s*\{", src)
+    if not m:
+        raise RuntimeError("enum Suggestion not found")
+    body = src[m.end():match_brace(src, m.end() - 1)]
+    variants = []
+    for f in top_fields(body):
+        f = re.sub(r"#\[[^\]]*\]", "", f)
+        mm = re.fullmatch(r"(\w+)(\(.*\))?", f)
+        if not mm:
+            raise RuntimeError("unknown shape of a Suggestion variant: " + f)
+        variants.append((mm.group(1), mm.group(2) or ""))
+    helpers = {}
+    for mm in re.finditer(r"pub\s+fn\s+(\w+)\s*\(([^)]*)\)\s*->\s*Self\s*\{", src):
+        j = match_brace(src, mm.end() - 1)
+        fbody = src[mm.end():j].strip()
+        last = re.sub(r"\s+", "", fbody.split(";")[-1].split("}")[-1])
+        r = re.fullmatch(r"Self::(\w+)\(.*\)", last)
+        if not r:
+            raise RuntimeError("helper constructor %s does not end in Self::X(..): %s" % (mm.group(1), last))
+        helpers[mm.group(1)] = r.group(1)
+    vnames = [v[0] for v in variants]
+    def resolve(n, k=0):
+        if n in vnames:
+            return n
+        if n in helpers and k < 4:
+            return resolve(helpers[n], k + 1)
+        return None
+    return variants, helpers, resolve
+
 def generate(repo):
     d = os.path.join(repo, "harper-core", "src", "linting")
     if not os.path.isdir(d):
         raise RuntimeError("no linting directory")
     sites = []
+    lsites = []
+    ssites = []
+    files = []
     nfiles = 0
-    for root, _, files in os.walk(d):
-        for f in sorted(files):
+    variants, helpers, resolve = suggestion_table(d)
+    for root, _, fs in os.walk(d):
+        for f in sorted(fs):
             if not f.endswith(".rs") or f in FRAMEWORK:
                 continue
             nfiles += 1
@@ -60,24 +226,57 @@ def generate(repo):
                 for name, rx in CLASSES:
                     for m in rx.finditer(norm):
                         sites.append((rel, line, m.group(0), name))
-                    rest = rx.sub("\u00a7", rest)
+                    rest = rx.sub("§", rest)
                 if TRIGGER.search(rest):
                     sites.append((rel, line, norm[:160], "Unknown"))
+            ls = lint_sites(code)
+            for cls, expr in ls:
+                lsites.append((rel, expr[:160], cls))
+            n_sug = 0
+            for m in re.finditer(r"\bSuggestion::(\w+)", code):
+                v = resolve(m.group(1))
+                ssites.append((rel, m.group(1), {"ReplaceWith": "SReplaceWith", "InsertAfter": "SInsertAfter", "Remove": "SRemove"}.get(v, "SUnknown")))
+                n_sug += 1
+            # a file that constructs no Lint must say how its lints are made: by instantiating a rule of another file
+            delegates = sorted(set(re.findall(r"\b(MapPhraseLinter|merge_linters|LintGroup|SpellCheck)\b", code))) if not ls else []
+            files.append((rel, len(ls), delegates))
     if nfiles < 40:
         raise RuntimeError("only %d rule files found: layout changed" % nfiles)
     if not sites:
         raise RuntimeError("no span-computing site found: the scanner no longer recognises the code")
+    if len(lsites) < 40:
+        raise RuntimeError("only %d Lint constructions found: the scanner no longer recognises the code" % len(lsites))
+    q = lambda t: t.replace('"', "'")
     out = ["(* GENERATED by tools/tables/spanexprs.py from /repo/harper-core/src/linting/*.rs — do not edit. *)",
            "From Coq Require Import List String.", "Import ListNotations.", "Open Scope string_scope.", "",
            "Inductive span_schema := Between | SuffixSpan | WithLen1 | Unknown.", "",
            "(* (file, expression with whitespace removed, schema) for every site in a rule body where a span is",
            "   computed rather than copied from a token or taken as the hull of tokens *)",
            "Definition rule_span_sites : list (string * string * span_schema) := ["]
-    rows = []
-    for rel, line, expr, cls in sites:
-        rows.append('  ("%s", "%s", %s)' % (rel, expr.replace('"', "'"), cls))
-    out.append(";\n".join(rows))
+    out.append(";\n".join('  ("%s", "%s", %s)' % (rel, q(expr), cls) for rel, line, expr, cls in sites))
     out.append("].")
     out.append("")
     out.append("Definition rule_files_scanned : nat := %d." % nfiles)
+    out.append("")
+    out.append("(* where the `span` field of every `Lint { .. }` constructed in a rule file comes from: a token's span, the hull")
+    out.append("   `.span()` of a token slice, or one of the computed schemas; a local variable is followed to its `let` *)")
+    out.append("Inductive lint_span_src := LTokSpan | LHull | LBetween | LSuffixSpan | LWithLen1 | LUnknown.")
+    out.append("Definition rule_lint_sites : list (string * string * lint_span_src) := [")
+    out.append(";\n".join('  ("%s", "%s", %s)' % (rel, q(expr), cls) for rel, expr, cls in lsites))
+    out.append("].")
+    out.append("")
+    out.append("(* every rule file: number of Lint constructions in it, and — when there is none — the rule types of OTHER files it")
+    out.append("   instantiates instead (their Lint constructions are in this table under their own file) *)")
+    out.append("Definition rule_files : list (string * nat * list string) := [")
+    out.append(";\n".join('  ("%s", %d, [%s])' % (rel, n, "; ".join('"%s"' % x for x in dl)) for rel, n, dl in files))
+    out.append("].")
+    out.append("")
+    out.append("(* linting/suggestion.rs: the variants of `enum Suggestion` (name, payload) and the helper constructors (name, variant built) *)")
+    out.append("Definition suggestion_variants : list (string * string) := [%s]." % "; ".join('("%s", "%s")' % (a, q(b)) for a, b in variants))
+    out.append("Definition suggestion_helpers : list (string * string) := [%s]." % "; ".join('("%s", "%s")' % (a, b) for a, b in sorted(helpers.items())))
+    out.append("Inductive sugg_ctor := SReplaceWith | SInsertAfter | SRemove | SUnknown.")
+    out.append("(* (file, constructor or helper named after `Suggestion::`, the variant it builds) for every use in a rule file *)")
+    out.append("Definition rule_suggestion_sites : list (string * string * sugg_ctor) := [")
+    out.append(";\n".join('  ("%s", "%s", %s)' % (rel, n, c) for rel, n, c in ssites))
+    out.append("].")
     return "\n".join(out) + "\n"
